@@ -55,6 +55,39 @@ CLAIMED = {
         technique='automata inclusion + MIR site classification + sibling summary comparison (static analysis)',
         engine='A+C',
     ),
+    'C14': dict(
+        category='other',
+        text='Dataflow identity decided on the inlined symbolic term of each of ~850 route functions (all-features build): every route out of the 40 validated types '
+             '(Display, Debug, as_str/as_bytes, AsRef/Borrow, From, into_*, to_owned, Clone, Serialize) returns/prints/serialises the stored text of self through '
+             'content-preserving functions only; comparisons with str/String/[u8]/[u8;N] are the primitive == on it; every route in (FromStr, TryFrom, from_vec, serde '
+             'visitors, borrowed and owned) obtains its Ok value only from the checked constructor of the SAME type applied to the input text. Per-type route counts have '
+             'exact floors, so a type compiled without serde / with wrong derive options is reported.',
+        design_ref='DESIGN.md §4 C14, Engine C (C-route)',
+        note='Trusted: allow-list of content-preserving std functions; serde drives Deserialize only through Visitor methods. "Parsing, comparing and hashing never rewrite the text" follows from &self receivers (borrow checker), not separately checked.',
+        technique='symbolic-term dataflow identity over MIR with closure and call inlining (static analysis)',
+        engine='C',
+    ),
+    'C17': dict(
+        category='other',
+        text='Pairing rule on the MIR of the four proc-macro functions: the literal\'s value() flows unmodified into exactly one call of the run-time validating constructor '
+             'iref_core::XBuf::new (acceptance is the run-time parser\'s by construction); the expansion recovered from the quote runtime calls is '
+             '`unsafe { ::iref::X::new_unchecked(<value>) }` with X the borrowed type of the same XBuf and <value> the as_bytes()/as_str() of the validated buffer; the rejecting '
+             'branch returns produce_error (compile_error!); crate iref publicly re-exports the macros and the four types under the paths the expansion uses.',
+        design_ref='DESIGN.md §4 C17, Engine C (C-macro)',
+        note='Trusted: syn::LitStr::value, quote! interpolation, proc-macro plumbing. Indistinguishability of the produced value follows from new_unchecked being a transmute of the same bytes (site table, C01).',
+        technique='MIR pairing rule on the proc-macro crate + crate-root export table (static analysis)',
+        engine='C',
+    ),
+    'C18': dict(
+        category='other',
+        text='Claimed in part (structural): both data-URL constructors validate the whole input with Uri/UriBuf::new, then run the single DataUrlDelimiters::parse on that text, succeed '
+             'exactly when it returns Some, store exactly its result and hand the input back otherwise; the owned form is immutable; parts() of both forms is into_parts(parse(text)); '
+             'unchecked constructors are unsafe.',
+        design_ref='DESIGN.md §4 C18',
+        note='NOT decided: that the re-scanning accessors media_type / is_base_64_encoded / encoded_data of the borrowed form agree with the stored offsets, base64 decoding, and that parse accepts exactly the documented shape.',
+        technique='MIR shape rules with dominators and symbolic terms (static analysis)',
+        engine='C',
+    ),
     'C19': dict(
         category='other',
         text='The property is regular and is decided exactly by automata inclusion for all values: for each of the 10 percent-decodable component types '
